@@ -82,7 +82,61 @@ func cmdGenCtor(args []string) int {
 			}
 		}
 		// value of an argument / field initialiser in terms of this constructor's parameters
-		valueOf := func(x ast.Expr) (string, bool) {
+		var valueOf func(x ast.Expr) (string, bool)
+		// a derived period such as int(math.Round(math.Sqrt(float64(period)))): the same expression in the spec language
+		arith := func(x ast.Expr) (string, bool) {
+			switch e := ast.Unparen(x).(type) {
+			case *ast.BinaryExpr:
+				switch e.Op.String() {
+				case "+", "-", "*", "/":
+					a, ok1 := valueOf(e.X)
+					b, ok2 := valueOf(e.Y)
+					if ok1 && ok2 {
+						if e.Op.String() == "/" {
+							// spec-level division of two integers is integer division: only real quotients are translated
+							if bt, ok := info.TypeOf(e.X).Underlying().(*types.Basic); !ok || bt.Info()&types.IsFloat == 0 {
+								return "", false
+							}
+						}
+						return "(" + a + " " + e.Op.String() + " " + b + ")", true
+					}
+				}
+			case *ast.CallExpr:
+				if len(e.Args) != 1 {
+					return "", false
+				}
+				name := ""
+				switch f := ast.Unparen(e.Fun).(type) {
+				case *ast.Ident:
+					name = f.Name
+				case *ast.SelectorExpr:
+					if id, ok := f.X.(*ast.Ident); ok {
+						name = id.Name + "." + f.Sel.Name
+					}
+				}
+				a, ok := valueOf(e.Args[0])
+				if !ok {
+					return "", false
+				}
+				switch name {
+				case "float64", "float32":
+					return "real(" + a + ")", true
+				case "math.Round":
+					return "round(" + a + ")", true
+				case "math.Sqrt":
+					return "sqrt(" + a + ")", true
+				case "int":
+					if bt, ok := info.TypeOf(e.Args[0]).Underlying().(*types.Basic); ok && bt.Info()&types.IsFloat != 0 {
+						return "trunc(" + a + ")", true
+					}
+				}
+			}
+			return "", false
+		}
+		valueOf = func(x ast.Expr) (string, bool) {
+			if v, ok := arith(x); ok {
+				return v, true
+			}
 			x = ast.Unparen(x)
 			if tv, ok := info.Types[x]; ok && tv.Value != nil {
 				switch tv.Value.Kind() {
@@ -296,9 +350,10 @@ func cmdGenCtor(args []string) int {
 		ci := infos[fi.Obj]
 		analyse(ci, 0)
 		sp := shortPkg(fi.Pkg.PkgPath)
-		tag := "C01"
+		// how an object is configured matters to every property stated "for all configurations" of that layer
+		tag := "C01,C02,C04,C15"
 		if strings.HasPrefix(sp, "strategy") {
-			tag = "C06"
+			tag = "C04,C05,C06,C14"
 		}
 		var lines []string
 		lines = append(lines, "//@ func "+fi.Decl.Name.Name)
